@@ -182,6 +182,10 @@ def step (s : St) (fs : List String) : St × String :=
   | ["nscase", "tidy-child"] =>
     -- tidy removes no index entry of a live child, whichever namespace the child lives in: the cascade still reaches it
     (s, "ok|ok|child:dead")
+  | ["nscase", "tidy-sealed-ancestor"] =>
+    -- …also when the child's namespace is out of sight (below a sealed namespace) while tidy runs: an index entry whose
+    -- child cannot be looked up is kept
+    (s, "ok|alive|ok|child:dead")
   | ["nscase", _how] =>
     -- a root-namespace token with a lease obtained in a child namespace, revoked in any way (also revoke-orphan sent
     -- through the child namespace): rejected afterwards, the lease revoked at its backend (`C04.revoke_cascade_seq`
